@@ -458,6 +458,24 @@ func (r *replayer) replayOne(v *gosym.Violation) {
 		}
 		return
 	}
+	if v.Kind == "unstable" {
+		// nondeterminism (map iteration order, scheduling): repeat the native run and look for two different values
+		seen := map[string]bool{}
+		for attempt := 0; attempt < 200 && !v.Replayed; attempt++ {
+			cmd := exec.Command(bin, "-test.run", "^TestVerifReplay$", "-test.timeout", "60s", "-test.v")
+			cmd.Dir = filepath.Join(repoDir, pkgRel)
+			cmd.Env = append(os.Environ(), "VERIF_REPLAY="+v.ReplayFile, "VERIF_HARNESS="+v.Harness)
+			out, _ := cmd.CombinedOutput()
+			for _, line := range strings.Split(string(out), "\n") {
+				if strings.HasPrefix(line, "VERIF-STABLE "+v.Label+"=") {
+					seen[line] = true
+				}
+			}
+			v.ReplayOut = tail(string(out), 2000)
+			v.Replayed = len(seen) >= 2
+		}
+		return
+	}
 	limit := 90 * time.Second
 	if v.Kind == "bound" || v.Kind == "deadlock" {
 		limit = 20 * time.Second // a hang is confirmed by a wall-clock timeout on a tiny input
